@@ -243,8 +243,45 @@ func oracleC03(rep *Report, x *distilled, replay interface{}) (nSimple, nKept, n
 
 // ---------- C04 ----------
 
-var rxDispNone = regexp.MustCompile(`(?i)display\s*:\s*none`)
-var rxVisHidden = regexp.MustCompile(`(?i)visibility\s*:\s*(hidden|collapse)`)
+// cssValue: the value an inline style gives a property, read the way a browser's declaration
+// parser does for the simple declarations the generators write (independent of the library's
+// regular expressions): declarations separated by ';', name and value separated by the first ':',
+// white space around both ignored, names and keywords case-insensitive, a trailing `!important`
+// taken off; the last important declaration wins, else the last one.
+func cssValue(style, prop string) (string, bool) {
+	val, found, important := "", false, false
+	for _, decl := range strings.Split(style, ";") {
+		k := strings.IndexByte(decl, ':')
+		if k < 0 {
+			continue
+		}
+		name := strings.ToLower(strings.TrimSpace(decl[:k]))
+		if name != prop {
+			continue
+		}
+		v := strings.ToLower(strings.TrimSpace(decl[k+1:]))
+		imp := false
+		if i := strings.LastIndexByte(v, '!'); i >= 0 && strings.TrimSpace(v[i+1:]) == "important" {
+			imp = true
+			v = strings.TrimSpace(v[:i])
+		}
+		if imp || !important {
+			val, found = v, true
+			important = important || imp
+		}
+	}
+	return val, found
+}
+
+func styleDisplayNone(style string) bool {
+	v, ok := cssValue(style, "display")
+	return ok && v == "none"
+}
+
+func styleVisHidden(style string) bool {
+	v, ok := cssValue(style, "visibility")
+	return ok && (v == "hidden" || v == "collapse")
+}
 
 var nonReadingTags = map[string]bool{"form": true, "input": true, "button": true, "select": true, "option": true, "textarea": true,
 	"noscript": true, "svg": true, "object": true, "embed": true, "applet": true, "iframe": true}
@@ -265,9 +302,9 @@ func hiddenClassFrom(from *html.Node) (string, bool) {
 			cls = "hidden:" + p.Data
 		case hasAttr(p, "hidden"):
 			cls = "hidden:hidden-attr"
-		case rxDispNone.MatchString(getAttr(p, "style")):
+		case styleDisplayNone(getAttr(p, "style")):
 			cls = "hidden:display-none"
-		case rxVisHidden.MatchString(getAttr(p, "style")):
+		case styleVisHidden(getAttr(p, "style")):
 			cls = "hidden:visibility"
 		case getAttr(p, "aria-hidden") == "true" && !strings.Contains(getAttr(p, "class"), "fallback-image"):
 			cls = "hidden:aria-hidden"
@@ -655,7 +692,7 @@ func visibleOutputTokens(root *html.Node) []string {
 			if strings.Contains(getAttr(n, "class"), "embed-placeholder") {
 				return
 			}
-			if hasAttr(n, "hidden") || rxDispNone.MatchString(getAttr(n, "style")) || rxVisHidden.MatchString(getAttr(n, "style")) || getAttr(n, "aria-hidden") == "true" ||
+			if hasAttr(n, "hidden") || styleDisplayNone(getAttr(n, "style")) || styleVisHidden(getAttr(n, "style")) || getAttr(n, "aria-hidden") == "true" ||
 				n.Data == "script" || n.Data == "style" {
 				return
 			}
